@@ -66,6 +66,8 @@ def tensor(env, topo, grid, radius):
             if key not in sig:
                 keys_ok = False
                 continue
+            if sum(1 for r_ in range(grid) for c_ in range(grid) if f"{r_}{c_}" == key) > 1:
+                continue        # key shared by two grid cells: the recorded finding; nothing per-cell can be asserted
             S = sig[key]
             cx, cy = (bins[0][row] + bins[0][row + 1]) / 2, (bins[1][col] + bins[1][col + 1]) / 2
             inside = [cid for cid, (x, y) in cms.items() if (cx - x) ** 2 + (cy - y) ** 2 <= rmin ** 2]
@@ -104,6 +106,9 @@ def tensor(env, topo, grid, radius):
     for row in range(grid):
         for col in range(grid):
             tok = ps.get((xc[row], yc[col]))
+            if sum(1 for r_ in range(grid) for c_ in range(grid) if f"{r_}{c_}" == f"{row}{col}") > 1:
+                pr_ok = pr_ok & False        # the tensor of a colliding key belongs to another grid cell (finding)
+                continue
             if tok is None:
                 pr_ok = pr_ok & False
                 continue
